@@ -393,6 +393,16 @@ def check_program(data: dict, lab: Labels) -> None:
                 armed = bombs[where % len(bombs)]
                 Bomb.armed = {armed}
             desc = f"call {state['n']} {fmt} options={mask} armed={armed}"
+            # re-entrancy: while a bomb of this tree is written, an option-less call on the probe tree
+            # runs inside its _serialize; that inner call gives the default output and the outer call
+            # goes on under its own options
+            nested_on = bool(bombs) and armed is None and where % 4 == 1
+            if nested_on:
+                Bomb.nested = {bombs[where % len(bombs)]}
+                Bomb.nested_results = []
+                Bomb.nested_call = lambda: ordered(probe.as_dict())
+                desc += " nested-call"
+                lab.tag("nested-call-inside-serialization")
             try:
                 out = _call_ser(node, fmt, opts, dialect)
                 require(armed is None, "armed-bomb-did-not-raise", desc)
@@ -403,6 +413,13 @@ def check_program(data: dict, lab: Labels) -> None:
                 lab.tag("failing-serialization")
             finally:
                 Bomb.armed = set()
+                Bomb.nested = set()
+                Bomb.nested_call = None
+            if nested_on:
+                for inner in Bomb.nested_results:
+                    require(inner == ref_probe, "options-leaked-into-nested-call",
+                            f"{desc}: {first_difference(json.loads(inner), json.loads(ref_probe))}")
+                Bomb.nested_results = []
             if out is not None and not mask & O_TEST:
                 got = _decode(fmt, out)
                 exp = ref_node(node, mask, bool(mask & O_DIALECT))
@@ -447,6 +464,13 @@ def check_program(data: dict, lab: Labels) -> None:
                 node.detach()  # so that deserialization descends (and meets the fault)
             desc = f"call {state['n']} from_{fmt} options={mask} corrupt={how if did else 0} bomb_de={sorted(Bomb.armed_de)}"
             state["cur"] = (mask, opts)
+            nested_de = bool(bombs) and not Bomb.armed_de and not did and where % 4 == 1
+            if nested_de:
+                Bomb.nested = set(bombs)
+                Bomb.nested_results = []
+                Bomb.nested_call = lambda: ordered(probe.as_dict())
+                desc += " nested-call"
+                lab.tag("nested-call-inside-deserialization")
             try:
                 res = _call_de(type(node), fmt, wire, opts, dialect)
                 del res
@@ -460,6 +484,13 @@ def check_program(data: dict, lab: Labels) -> None:
                 del e
             finally:
                 Bomb.armed_de = set()
+                Bomb.nested = set()
+                Bomb.nested_call = None
+            if nested_de:
+                for inner in Bomb.nested_results:
+                    require(inner == ref_probe, "options-leaked-into-nested-call",
+                            f"{desc}: {first_difference(json.loads(inner), json.loads(ref_probe))}")
+                Bomb.nested_results = []
             probes(desc)
         elif kind == "all_as_dict":
             Source.all_as_dict(mashumaro_dialect=_dialect() if o[1] else None)
